@@ -19,7 +19,6 @@ import (
 	"github.com/sarchlab/akita/v5/modeling"
 	"github.com/sarchlab/akita/v5/noc/directconnection"
 	"github.com/sarchlab/akita/v5/timing"
-
 )
 
 func memByte(paddr uint64) byte { return byte(1 + (paddr*2654435761>>7)%251) }
@@ -130,6 +129,15 @@ func (r *requester) Tick() bool {
 
 		delete(r.out, m.Meta().RspTo)
 		r.done++
+
+		switch rsp := m.(type) {
+		case vmprotocol.TranslationRsp:
+			w.RespLog = append(w.RespLog, fmt.Sprintf("%d %d %d T %+v", r.idx, o.ord, w.Eng.CurrentTime(), rsp.Page))
+		case memprotocol.DataReadyRsp:
+			w.RespLog = append(w.RespLog, fmt.Sprintf("%d %d %d D %x", r.idx, o.ord, w.Eng.CurrentTime(), rsp.Data))
+		default:
+			w.RespLog = append(w.RespLog, fmt.Sprintf("%d %d %d %T", r.idx, o.ord, w.Eng.CurrentTime(), m))
+		}
 		vaddr := o.op.VPage<<w.C.Log2Page + o.op.Off
 
 		switch rsp := m.(type) {
@@ -420,7 +428,13 @@ func Build(c *Cfg) *World {
 		w.Reqs = append(w.Reqs, r)
 	}
 
-	w.Eng.AcceptHook(engHook{w})
+	if !NoEngineHook {
+		w.Eng.AcceptHook(engHook{w})
+	}
+
+	if ExtraAttach != nil {
+		ExtraAttach(w)
+	}
 
 	return w
 }
